@@ -2,7 +2,9 @@
 import math
 
 from cmv import contracts
+from cmv import pairwork as PW
 from cmv.gen import colors as G
+from cmv.gen import spellings as SP
 from cmv.oracles import wcag
 
 ID = "C05"
@@ -233,6 +235,38 @@ def labels(shard, rec, lib, con):
                 got = lib.ColorPair(t, b, large_text=large).is_readable
                 if got not in {READ[w] for w in wants}:
                     rec.violation(f"ColorPair({t},{b},large_text={large}).is_readable = {got!r}; oracle ratio {r:.6f} -> {sorted(wants)}", case)
+                # the same pair in other accepted spellings, translucent ones included (the text as it is seen over this
+                # background is exactly t): the label is that of the pair displayed
+                tr = PW.translucent_seen_as(rnd, t, b) if rnd.random() < 0.5 else None
+                if tr is not None:
+                    tsp, tk = tr[0], tr[1]
+                else:
+                    tk, tsp = rnd.choice(SP.available(t))
+                bk, bsp = rnd.choice(SP.available(b))
+                sp_pair = lib.ColorPair(tsp, bsp, large_text=large)
+                if sp_pair.is_valid and tuple(sp_pair.bg.rgb) == tuple(b) and (tr is None or all(abs(x - y) <= 1.5 for x, y in zip(sp_pair.text.rgb, t))):
+                    rs = r if tuple(sp_pair.text.rgb) == tuple(t) else wcag.ratio(tuple(sp_pair.text.rgb), b)
+                    wants_s = {wcag.level(rs, large)}
+                    for th in (3.0, 4.5, 7.0):
+                        if abs(rs - th) <= wcag.RATIO_BAND * th:
+                            wants_s |= {wcag.level(th - 1e-6, large), wcag.level(th, large)}
+                    rec.count("spelled_pair_label_checked")
+                    rec.count("spelled_text_kind:" + tk)
+                    got = sp_pair.is_readable
+                    if got not in {READ[w] for w in wants_s}:
+                        rec.violation(f"ColorPair({tsp!r},{bsp!r},large_text={large}).is_readable = {got!r}; the pair displayed is {t} on {b}, "
+                                      f"oracle ratio {rs:.6f} -> {sorted(wants_s)}", dict(case, text=SP.jsonable(tsp), tk=tk, bg=SP.jsonable(bsp), bk=bk))
+                else:
+                    rec.count("spelled_pair_not_judged(C07/C13)")
+                    if tr is not None and sp_pair.is_valid and tuple(sp_pair.bg.rgb) == tuple(b):
+                        # composite further than C13's 1.5 units from the blend over this pair's background: the label given is
+                        # that of some other pair; judged here only when the two pairs' labels differ beyond doubt
+                        rs = wcag.ratio(tuple(sp_pair.text.rgb), b)
+                        far = all(abs(r - th) > wcag.RATIO_BAND * th for th in (3.0, 4.5, 7.0))
+                        if far and sp_pair.is_readable not in {READ[w] for w in wants}:
+                            rec.violation(f"ColorPair({tsp!r},{bsp!r},large_text={large}).is_readable = {sp_pair.is_readable!r}; the pair displayed is {t} on {b}, "
+                                          f"oracle ratio {r:.6f} -> {sorted(wants)} (the library judged composite {sp_pair.text.rgb})",
+                                          dict(case, text=SP.jsonable(tsp), tk=tk, bg=SP.jsonable(bsp), bk=bk))
                 if r >= wcag.minimum(large, False):  # already readable: bulk returns it unchanged, status labels it
                     res = lib.make_readable_bulk([(t, b, large)])
                     st = res[0][1]
@@ -389,6 +423,13 @@ def replay(case):
         print(f"bulk -> ({col!r}, {st!r}); returned colour's ratio {r:.4f} -> {wcag.LABEL[wcag.level(r, case['large'])]!r}")
         return st == wcag.LABEL[wcag.level(r, case["large"])]
     r = wcag.ratio(t, b)
+    if "tk" in case:
+        tsp, bsp = SP.from_json(case["text"], case["tk"]), SP.from_json(case["bg"], case["bk"])
+        pr = lib.ColorPair(tsp, bsp, large_text=case["large"])
+        READ = {"AAA": "Very Readable", "AA": "Readable", "FAIL": "Not Readable"}
+        print(f"ColorPair({tsp!r},{bsp!r},large_text={case['large']}): library sees {pr.text.rgb} on {pr.bg.rgb}, is_readable {pr.is_readable!r}; "
+              f"displayed pair {t} on {b}: oracle ratio {r}, label {READ[wcag.level(r, case['large'])]!r}")
+        return pr.is_readable == READ[wcag.level(r, case["large"])]
     print(f"pair {t} on {b} large={case['large']}: oracle ratio {r}, level {wcag.level(r, case['large'])}; "
           f"library get_wcag_level {con.get_wcag_level(t, b, case['large'])}, is_readable {lib.ColorPair(t, b, large_text=case['large']).is_readable}")
     return con.get_wcag_level(t, b, case["large"]) == wcag.level(r, case["large"])
